@@ -118,6 +118,11 @@ static double lse_exact(const vector<float> &x, const Geo &g, uint32_t low, uint
   *mx = am; return m + std::log(s);
 }
 
+// dropout_r<percent>_<on|off>: rate = percent / 100 (0, 25, 50, 100 are exact floats), enabled = on
+static void parse_dropout(const string &f, float *rate, bool *on) {
+  size_t u = f.rfind('_'); *rate = std::stoi(f.substr(9, u - 9)) / 100.0f; *on = (f.substr(u + 1) == "on");
+}
+
 template <typename Var> struct Api;
 template <> struct Api<Tensor> { static vector<float> vec(const Tensor &t) { return t.to_vector(); } static Shape shp(const Tensor &t) { return t.shape(); } };
 template <> struct Api<Node> { static vector<float> vec(const Node &t) { return t.to_vector(); } static Shape shp(const Node &t) { return t.shape(); } };
@@ -142,10 +147,7 @@ static std::pair<Shape, vector<float>> run_fn(const Case &c, const Inputs &in, D
   else if (f == "batch_normalize") y = F::batch::normalize(x);
   else if (f == "selu") y = F::selu(x);
   else if (f == "selu_custom") y = F::selu(x, 0.75f, 1.5f);
-  else if (f == "dropout_disabled") y = F::dropout(x, 0.5f, false);
-  else if (f == "dropout_rate1") y = F::dropout(x, 1.0f, true);
-  else if (f == "dropout_rate0") y = F::dropout(x, 0.0f, true);
-  else if (f == "dropout_half") y = F::dropout(x, 0.5f, true);
+  else if (f.compare(0, 9, "dropout_r") == 0) { float rate; bool on; parse_dropout(f, &rate, &on); y = F::dropout(x, rate, on); }
   else if (f == "container_sum" || f == "container_mean") {
     vector<Var> xs; xs.push_back(x); xs.push_back(F::input<Var>(sx, in.y2, dev)); xs.push_back(F::input<Var>(sx, in.y3, dev));
     y = (f == "container_sum") ? F::sum(xs) : F::mean(xs);
@@ -159,6 +161,11 @@ static std::pair<Shape, vector<float>> run_fn(const Case &c, const Inputs &in, D
 static Inputs make_inputs(const Case &c) {
   Rng r(c.seed); Geo g = geo(c); Inputs in; size_t N = (size_t)g.V * c.B;
   in.x = rand_data(r, N, -8, 8);
+  if (c.fn.compare(0, 9, "dropout_r") == 0 && c.fn.substr(c.fn.size() - 4) == "_off") {
+    // disabled dropout must hand back x bit for bit whatever it holds: -0.0, +inf, -inf among the values
+    const float sp[3] = {-0.0f, INFINITY, -INFINITY}; uint32_t o = r.below(3);
+    for (size_t i = 0; i < N && i < 3; ++i) in.x[(i * 7) % N] = sp[(i + o) % 3];
+  }
   in.tB = (c.fn == "sce_dense_tb1") ? 1 : c.B;
   in.t = rand_data(r, (size_t)g.V * in.tB, 0, 1);
   in.y2 = rand_data(r, N, -8, 8); in.y3 = rand_data(r, N, -8, 8);
@@ -219,18 +226,43 @@ static Expect expect(const Case &c, const Inputs &in) {
   } else if (f == "selu" || f == "selu_custom") {
     full(); double a = (f == "selu") ? (double)1.6732632423543772848170429916717f : 0.75, s = (f == "selu") ? (double)1.0507009873554804934193349852946f : 1.5;
     for (size_t o = 0; o < e.val.size(); ++o) { double v = x[o]; e.val[o] = s * (v >= 0 ? v : a * (std::exp(v) - 1)); e.scale[o] = std::max(1.0, std::fabs(v)); }
-  } else if (f == "dropout_disabled" || f == "dropout_rate0") {
-    full(); for (size_t o = 0; o < e.val.size(); ++o) { e.val[o] = x[o]; e.scale[o] = 0; }   // exactly x
-  } else if (f == "dropout_rate1" || f == "zeros") {
+  } else if (f == "zeros") {
     full(); for (size_t o = 0; o < e.val.size(); ++o) { e.val[o] = 0; e.scale[o] = 0; }
   } else if (f == "ones") {
     full(); for (size_t o = 0; o < e.val.size(); ++o) { e.val[o] = 1; e.scale[o] = 0; }
   } else if (f == "container_sum" || f == "container_mean") {
     full(); for (size_t o = 0; o < e.val.size(); ++o) { double v = (double)x[o] + in.y2[o] + in.y3[o]; double mx = std::max(std::fabs((double)x[o]), std::max(std::fabs((double)in.y2[o]), std::fabs((double)in.y3[o]))); if (f == "container_mean") v /= 3; e.val[o] = v; e.scale[o] = std::max(1.0, std::max(std::fabs(v), mx)); }
-  } else if (f == "dropout_half") {
-    full();   // judged separately
+  } else if (f.compare(0, 9, "dropout_r") == 0) {
+    full();   // judged by judge_dropout
   } else throw std::runtime_error("unknown function " + f);
   return e;
+}
+
+// dropout(x, rate, enabled) as documented (contrib/functions.h:282-296):
+//   disabled              -> x itself, bit for bit, for EVERY rate (rate 1 included) and every content of x
+//   enabled, rate 1       -> all zeros (`0 * x`)
+//   enabled, rate 0       -> x (the mask Bernoulli(1) is all ones, 1/p = 1)
+//   enabled, 0 < rate < 1 -> every element is 0 or x / (1 - rate)
+static Result judge_dropout(const Case &c, const Inputs &in, const Shape &s, const vector<float> &got, const string &who) {
+  float rate; bool on; parse_dropout(c.fn, &rate, &on);
+  if (!(s == Shape(c.dims, c.B))) return fail(who + "shape", "got " + s.to_string());
+  if (got.size() != in.x.size()) return fail(who + "size", "got " + std::to_string(got.size()) + " values");
+  std::ostringstream o; o.precision(9);
+  for (size_t i = 0; i < got.size(); ++i) {
+    double x = in.x[i], g = got[i];
+    if (!on) {
+      if (std::memcmp(&got[i], &in.x[i], 4) != 0) { o << "element " << i << " got " << g << " but disabled dropout(rate " << rate << ") must return x = " << x << " bit for bit"; return fail(who + "disabled-not-identity", o.str()); }
+    } else if (rate == 1.0f) {
+      if (!(g == 0)) { o << "element " << i << " got " << g << ", rate 1 must give 0"; return fail(who + "value", o.str()); }
+    } else if (rate == 0.0f) {
+      if (!(g == x)) { o << "element " << i << " got " << g << ", rate 0 must give x = " << x; return fail(who + "value", o.str()); }
+    } else {
+      double keep = x / (1.0 - (double)rate);
+      bool zero = (g == 0), kept = std::fabs(g - keep) <= K * ULP32 * std::max(1.0, std::fabs(keep));
+      if (!zero && !kept) { o << "element " << i << " got " << g << " neither 0 nor x/(1-rate) = " << keep; return fail(who + "value", o.str()); }
+    }
+  }
+  return Result{true, "", "", 0, got.size(), false};
 }
 
 static Result run_case(const Case &c, Devs &devs) {
@@ -241,15 +273,15 @@ static Result run_case(const Case &c, Devs &devs) {
   catch (const Error &e) { return fail("tensor-api-exception", e.what()); }
   Expect e = expect(c, in);
   Result r;
-  if (c.fn == "dropout_half") {
-    if (!(rt.first == Shape(c.dims, c.B))) return fail("shape", "got " + rt.first.to_string());
-    r = Result{true, "", "", 0, rt.second.size(), false};
-    for (size_t i = 0; i < rt.second.size(); ++i) {
-      double keep = 2.0 * in.x[i], got = rt.second[i];
-      bool zero = (got == 0), kept = std::fabs(got - keep) <= K * ULP32 * std::max(1.0, std::fabs(keep));
-      if (!zero && !kept) { std::ostringstream o; o.precision(9); o << "element " << i << " got " << got << " neither 0 nor x/(1-rate) = " << keep; return fail("value", o.str()); }
-    }
-    return r;   // the Node run draws a different mask
+  if (c.fn.compare(0, 9, "dropout_r") == 0) {
+    // the documented behaviour, for the Tensor argument and again for a Node argument (own mask)
+    r = judge_dropout(c, in, rt.first, rt.second, "");
+    if (!r.ok) return r;
+    try { Graph g; Graph::set_default(g); rn = run_fn<Node>(c, in, dev); }
+    catch (const Error &ex) { return fail("node-api-exception", ex.what()); }
+    Result r2 = judge_dropout(c, in, rn.first, rn.second, "node-");
+    if (!r2.ok) return r2;
+    r.coords += r2.coords; return r;
   }
   r = compare(e, rt.first, rt.second);
   if (!r.ok) {
@@ -278,7 +310,7 @@ static Result run_case(const Case &c, Devs &devs) {
 }
 
 static const char *FNS[] = {"logsumexp", "log_softmax", "softmax", "sum", "mean", "sce_dense", "sce_dense_tb1", "sce_sparse", "sce_sparse_1"};
-static const char *FNS_NODIM[] = {"batch_mean", "batch_normalize", "selu", "selu_custom", "dropout_disabled", "dropout_rate1", "dropout_rate0", "dropout_half", "container_sum", "container_mean", "zeros", "ones"};
+static const char *FNS_NODIM[] = {"batch_mean", "batch_normalize", "selu", "selu_custom", "dropout_r0_off", "dropout_r25_off", "dropout_r50_off", "dropout_r100_off", "dropout_r0_on", "dropout_r25_on", "dropout_r50_on", "dropout_r100_on", "container_sum", "container_mean", "zeros", "ones"};
 
 static int probe(Devs &devs) {
   // batch::normalize on a constant minibatch: exact value 0 everywhere (x - m = 0, v = 0, eps > 0)
@@ -315,11 +347,17 @@ int main(int argc, char **argv) {
   }
   uint64_t seed = argc > 1 ? std::stoull(argv[1]) : 1; uint32_t per = argc > 2 ? pvh::u32(argv[2]) : 2;
   Rng r(seed); std::map<string, long> per_fn, per_dev; long ok = 0, bad = 0, cand = 0, coords = 0; double worst = 0; string worst_case;
-  std::map<string, double> worst_fn;
+  std::map<string, double> worst_fn; std::map<string, long> boundary;
   auto one = [&](const Case &c) {
     Result res;
     try { res = run_case(c, devs); } catch (const std::exception &e) { res = fail("exception", e.what()); }
     per_fn[c.fn]++; per_dev[c.dev]++;
+    { Geo g = geo(c);
+      if ((c.fn == "mean" || c.fn == "sum") && g.n == 1) boundary[c.fn + "_extent1"]++;
+      if ((c.fn == "softmax" || c.fn == "log_softmax" || c.fn == "logsumexp" || c.fn == "sce_dense" || c.fn == "sce_sparse") && c.dim >= c.dims.size()) boundary[c.fn + "_axis_at_or_beyond_depth"]++;
+      if ((c.fn == "batch_mean" || c.fn == "batch_normalize") && c.B == 1) boundary[c.fn + "_B1"]++;
+      if (c.fn == "dropout_r100_off") boundary["dropout_disabled_rate1"]++;
+      if (c.dims.empty()) boundary["scalar_shape"]++; }
     if (res.ok) { ++ok; coords += res.coords; std::cout << "ok\n"; if (res.ratio > worst) { worst = res.ratio; worst_case = case_line(c); } worst_fn[c.fn] = std::max(worst_fn[c.fn], res.ratio); }
     else if (res.cand) { ++cand; std::cout << "CAND " << case_line(c) << " :: " << res.cls << " " << res.details << "\n"; }
     else { ++bad; std::cout << "FAIL " << case_line(c) << " :: " << res.cls << " " << res.details << "\n"; }
@@ -336,6 +374,7 @@ int main(int argc, char **argv) {
   std::cout << "SUMMARY {\"seed\": " << seed << ", \"shapes_per_depth\": " << per << ", \"cases\": " << (ok + bad + cand) << ", \"ok\": " << ok << ", \"fail\": " << bad << ", \"candidates\": " << cand
             << ", \"coords_checked\": " << coords << ", \"K\": " << K << ", \"max_err_over_tol\": " << worst << ", \"worst_case\": \"" << worst_case << "\", \"per_function\": {";
   bool first = true; for (auto &kv : per_fn) { std::cout << (first ? "" : ", ") << "\"" << kv.first << "\": [" << kv.second << ", " << worst_fn[kv.first] << "]"; first = false; }
+  std::cout << "}, \"boundary\": {"; first = true; for (auto &kv : boundary) { std::cout << (first ? "" : ", ") << "\"" << kv.first << "\": " << kv.second; first = false; }
   std::cout << "}, \"per_device\": {"; first = true; for (auto &kv : per_dev) { std::cout << (first ? "" : ", ") << "\"" << kv.first << "\": " << kv.second; first = false; }
   std::cout << "}}\n";
   return 0;
